@@ -64,6 +64,12 @@ def run(ctx):
     rep.rule("TX-3", "one wrapping sequence generator per message type", floor=5)
     rep.rule("TX-4", "every frame is packet_buffer[..serialize(..)]", floor=8)
     rep.rule("TX-6", "timestamp split into seconds / nanoseconds / sub-ns correction", floor=4)
+    rep.rule("TX-7", "start_bmca/end_bmca carry every sequence generator, the port identity, config and state over "
+                     "to the same-named field", floor=2)
+    from rules import fsm_common as _fc
+    _fc.check_lifecycle_transfer(rep, prog, "TX-7", fields={"announce_seq_ids", "sync_seq_ids", "delay_seq_ids",
+                                                            "pdelay_seq_ids", "port_identity", "config",
+                                                            "instance_state", "port_state"}, check_pending=False)
 
     # ---------------- TX-1
     for b in prog.bodies.values():
